@@ -131,6 +131,9 @@ class _MetaPyTree(type):
         finally:
             if not already_flattening:
                 clear_treeflatten_memo()
+        # `is_leaf` may have run other jaxtyping checks, and a failing one replaces the
+        # dictionaries on top of the memo stack: bind names in the current one.
+        _, _, pytree_memo, _ = get_shape_memo()
         if cls.structure is not None:
             if cls.structure.isidentifier():
                 try:
